@@ -10,6 +10,7 @@ import (
 )
 
 func init() {
+	vpHarnesses["vpC08_O3"] = vpC08_O3
 	vpHarnesses["vpC08_O1"] = vpC08_O1
 	vpHarnesses["vpC08_O2"] = vpC08_O2
 }
@@ -219,5 +220,37 @@ func vpC08_O2() {
 	vpAssert("verification of a shaped ProofU returns a verdict", ok || !ok)
 	if gone {
 		vpAssert("a ProofU with a missing mandatory part is rejected", !ok)
+	}
+}
+
+// C08-O3: a cryptographically consistent proof that lacks the secret-key
+// response: the library's own prover asked to disclose attribute 0. Alone and
+// in a list next to an ordinary proof (sharing one challenge), verification
+// returns a verdict - rejection - and does not panic.
+func vpC08_O3() {
+	pk, sk := vpKeys(0, 3, 1024, false)
+	secret := vpBigBits("secret", 255)
+	cred0 := vpCredentialFor(pk, sk, "x", secret, 1, 256)
+	cred1 := vpCredentialFor(pk, sk, "y", secret, 1, 256)
+	ctx, nonce := vpBigBits("ctx", 256), vpBigBits("nonce", 80)
+	b0, err := cred0.CreateDisclosureProofBuilder([]int{0, 1}, nil, false)
+	vpAssume(err == nil)
+	b1, err := cred1.CreateDisclosureProofBuilder(nil, nil, false)
+	vpAssume(err == nil)
+	keys := []*gabikeys.PublicKey{pk, pk}
+	switch vpChoose("arrangement", 3) {
+	case 0:
+		pl, err := ProofBuilderList{b0}.BuildProofList(ctx, nonce, false)
+		vpAssume(err == nil)
+		vpAssert("a proof disclosing the secret key is rejected", !pl.Verify(keys[:1], ctx, nonce, false, nil))
+		vpAssert("a proof disclosing the secret key is rejected on its own", !pl[0].(*ProofD).Verify(pk, ctx, nonce, false))
+	case 1:
+		pl, err := ProofBuilderList{b0, b1}.BuildProofList(ctx, nonce, false)
+		vpAssume(err == nil)
+		vpAssert("a list containing such a proof is rejected", !pl.Verify(keys, ctx, nonce, false, nil))
+	case 2:
+		pl, err := ProofBuilderList{b1, b0}.BuildProofList(ctx, nonce, false)
+		vpAssume(err == nil)
+		vpAssert("a list containing such a proof is rejected", !pl.Verify(keys, ctx, nonce, false, nil))
 	}
 }
